@@ -263,6 +263,9 @@ pub struct GenStats {
     /// STRUCT and ARRAY types (declared or inline)
     #[serde(default)]
     pub aggregate_types: usize,
+    /// 0 no paths, 1 relative, 2 mixed, 3 absolute
+    #[serde(default)]
+    pub path_mode: usize,
 }
 
 /// One small tape per entity, so that proptest shrinks by dropping whole entities.
@@ -284,7 +287,12 @@ pub struct Generated {
     pub files: Vec<SrcFile>,
     pub trace: Vec<Step>,
     pub stats: GenStats,
+    /// (save interval in simulated ns or None, file store?) - None = no retain store
+    pub retain: Option<(Option<i64>, bool)>,
 }
+
+/// Prefix of absolute source paths; the check replaces it by a per-batch scratch directory.
+pub const ABS_PREFIX: &str = "@ABS@";
 
 #[derive(Clone, Debug)]
 struct Global {
@@ -316,6 +324,7 @@ struct Gen<'a> {
     inputs: Vec<(String, S)>,
     has_config: bool,
     multi_file: bool,
+    retain_interval: Option<i64>,
 }
 
 impl<'a> Gen<'a> {
@@ -1486,6 +1495,14 @@ impl<'a> Gen<'a> {
             env.rw(&v, s);
         }
         let mut body = String::new();
+        if self.stats.programs == 0 {
+            // a RETAIN counter that changes in every execution, so that every cycle has a new
+            // retain image to persist
+            let rc = self.ident("rc");
+            text.push_str(&format!("VAR RETAIN\n  {rc} : DINT := DINT#0;\nEND_VAR\n"));
+            body.push_str(&format!("{rc} := ({rc} MOD DINT#100000) + DINT#1;\n"));
+            self.stats.retain_vars += 1;
+        }
         self.bind_interfaces(&env, &mut body);
         let nb = 2 + self.r.pick(body_len + 1);
         self.block(&env, &mut body, 3, "", nb, &mut counters);
@@ -1550,6 +1567,7 @@ pub fn generate(t: &Tapes) -> Generated {
         inputs: Vec::new(),
         has_config: false,
         multi_file: false,
+        retain_interval: None,
     };
     let body_len = 2 + g.r.pick(5);
     g.has_config = g.r.chance(5, 6);
@@ -1561,6 +1579,18 @@ pub fn generate(t: &Tapes) -> Generated {
         ns.push(g.ident("Ns"));
     }
     g.stats.namespaces = n_ns;
+    // retain store for the trace: none | store without interval | interval 0 | 1 ms | 10 s |
+    // 500 ms (rare: its slow replay costs 1.8 s of real time)
+    let retain: Option<(Option<i64>, bool)> = match g.r.weighted(&[9, 2, 5, 12, 2, 1]) {
+        0 => None,
+        1 => Some((None, false)),
+        2 => Some((Some(0), false)),
+        3 => Some((Some(1_000_000), false)),
+        4 => Some((Some(10_000_000_000), false)),
+        _ => Some((Some(500_000_000), false)),
+    };
+    let retain = retain.map(|(i, _)| (i, g.r.chance(1, 4)));
+    g.retain_interval = retain.and_then(|(i, _)| i).filter(|i| *i > 0 && *i <= 1_000_000_000);
     for tp in &t.types {
         g.r = Reader::new(tp);
         g.gen_type(&ns);
@@ -1712,7 +1742,8 @@ pub fn generate(t: &Tapes) -> Generated {
         cuts.push(g.r.pick(all.len() + 1));
     }
     cuts.sort();
-    let with_paths = g.r.weighted(&[2, 2, 1]); // 0 none, 1 all, 2 mixed
+    let with_paths = g.r.weighted(&[2, 2, 1, 3]); // 0 none, 1 all relative, 2 mixed, 3 all absolute
+    g.stats.path_mode = with_paths;
     let mut files = Vec::new();
     let mut start = 0;
     for f in 0..n_files {
@@ -1722,6 +1753,9 @@ pub fn generate(t: &Tapes) -> Generated {
         let path = match with_paths {
             0 => None,
             1 => Some(format!("src/{}{f}.st", STEMS[g.r.pick(STEMS.len())])),
+            // absolute: `<per-batch scratch dir>/src/uNN_<stem>.st`; the number keeps the sorted
+            // order of the files on disk equal to the order of the project
+            3 => Some(format!("{ABS_PREFIX}/src/u{f:02}_{}.st", STEMS[g.r.pick(STEMS.len())])),
             _ => {
                 if f % 2 == 0 {
                     Some(format!("lib/unit{f}.st"))
@@ -1739,7 +1773,13 @@ pub fn generate(t: &Tapes) -> Generated {
     let mut trace = Vec::new();
     for tp in &t.steps {
         g.r = Reader::new(tp);
-        let dt = match g.r.weighted(&[1, 3, 3, 2, 1]) {
+        let dt = match g.r.weighted(&[1, 3, 3, 2, 1, if g.retain_interval.is_some() { 12 } else { 0 }]) {
+            5 => {
+                // steps around the retain save interval: every cycle (or every other one) is
+                // a save point in simulated time
+                let i = g.retain_interval.unwrap_or(1_000_000);
+                [i, i, 2 * i, i + i / 2, i / 2, i + 1][g.r.pick(6)]
+            }
             0 => 0,
             1 => [1_000_000i64, 5_000_000, 10_000_000, 20_000_000][g.r.pick(4)],
             2 => {
@@ -1769,5 +1809,5 @@ pub fn generate(t: &Tapes) -> Generated {
         }
         trace.push(Step { dt_ns: dt, writes });
     }
-    Generated { files, trace, stats: g.stats }
+    Generated { files, trace, stats: g.stats, retain }
 }
